@@ -274,6 +274,8 @@ pub struct Monitor {
     pub ether_touched: BTreeSet<Address>,
     /// a completed SELFDESTRUCT credited a beneficiary whose balance wrapped past 2^256
     pub sd_credit_wrapped: bool,
+    /// every address targeted by a call frame in this transaction
+    pub addresses_called: BTreeSet<Address>,
 }
 
 const MAX_VIOLATIONS: usize = 6;
@@ -311,6 +313,7 @@ impl Monitor {
         self.top_gas = None;
         self.burned_total = alloy_primitives::U512::ZERO;
         self.ether_touched.clear();
+        self.addresses_called.clear();
         self.fp = 0x1234_5678;
         // access model: initial set (EIP-2929/2930/3651/7702)
         let spec = ctx.spec.unwrap_or(SpecId::LATEST);
@@ -445,6 +448,10 @@ impl Monitor {
             }
         } else if let Some(a) = created_address {
             self.ether_touched.insert(a);
+        }
+        if let FrameInputs::Call(c) = &inputs {
+            self.addresses_called.insert(c.target_address);
+            self.addresses_called.insert(c.bytecode_address);
         }
         let static_snap = if is_static && !parent_static { Some(snap(js)) } else { None };
         let frame_snap = if self.check_frame_snapshots && self.frames.len() < 12 { Some(snap(js)) } else { None };
